@@ -2,9 +2,14 @@
 
 seal(key, nonce, data, aad)  = stream(key, nonce, len(data)) XOR data  ||  HMAC-SHA256(key, nonce|aad|ct)[:16]
 open(...)                    = verify the 16-byte tag in constant time, then XOR; raise InvalidTag otherwise
-kdf(password, salt, iterations, length, algorithm) = one pass of PBKDF2-HMAC-SHA256 whose salt is
-    salt || iterations || algorithm name -- every parameter influences the key, but the work factor
-    is NOT reproduced (600 000 real iterations per derivation would make generated runs unusable).
+kdf(password, salt, iterations, length, algorithm) = one pass of PBKDF2-HMAC-SHA256 over
+    SHA-256(len(password) || password) whose salt is salt || iterations || algorithm name -- every
+    parameter influences the key, but the work factor is NOT reproduced (600 000 real iterations per
+    derivation would make generated runs unusable).  The password is hashed together with its length
+    first so that the stand-in is collision-free on passwords: genuine PBKDF2-HMAC is not -- HMAC
+    zero-pads its key, so "pw" and "pw\0" (and a password longer than 64 bytes and its SHA-256
+    digest) derive the same key.  The verification states its "different password" claims for an
+    AEAD without such collisions (see ASSUMPTIONS of harness/props/c33.py).
 """
 from __future__ import annotations
 
@@ -49,4 +54,5 @@ def open_(key: bytes, nonce: bytes, data: bytes, aad: bytes | None) -> bytes:
 
 def kdf(password: bytes, salt: bytes, iterations: int, length: int, algorithm: str = "sha256") -> bytes:
     mixed = salt + b"\0iter=" + str(int(iterations)).encode() + b"\0alg=" + algorithm.encode()
-    return hashlib.pbkdf2_hmac("sha256", password, mixed, 1, dklen=length)
+    pre = hashlib.sha256(len(password).to_bytes(8, "big") + password).digest()
+    return hashlib.pbkdf2_hmac("sha256", pre, mixed, 1, dklen=length)
